@@ -111,6 +111,15 @@ pub enum ErrKind {
 }
 
 pub fn parse(lines: &[String]) -> Result<Vec<Item>, ErrKind> {
+    match parse_partial(lines) {
+        (_, Some(e)) => Err(e),
+        (items, None) => Ok(items),
+    }
+}
+
+/// Like `parse`, but also returns the items that precede a prefix-less multi-line directive: the
+/// real preprocessor has executed those (including their commands) before it meets the error.
+pub fn parse_partial(lines: &[String]) -> (Vec<Item>, Option<ErrKind>) {
     let mut items = vec![];
     let mut cur: Option<Dir> = None;
     for l in lines {
@@ -124,7 +133,7 @@ pub fn parse(lines: &[String]) -> Result<Vec<Item>, ErrKind> {
         match detect(l) {
             Some(d) => {
                 if multi(&d.name) && d.pre.is_empty() {
-                    return Err(ErrKind::Prefixless);
+                    return (items, Some(ErrKind::Prefixless));
                 }
                 cur = Some(d)
             }
@@ -134,7 +143,7 @@ pub fn parse(lines: &[String]) -> Result<Vec<Item>, ErrKind> {
     if let Some(d) = cur {
         items.push(Item::Dir(d));
     }
-    Ok(items)
+    (items, None)
 }
 
 #[derive(Default, Debug)]
@@ -330,8 +339,22 @@ impl<'a> Eval<'a> {
         let text = String::from_utf8(self.w.files[src].clone()).map_err(|_| ErrKind::Other("utf8".into()))?;
         let (ls, le) = split(&text);
         self.built.le.insert(src.to_string(), le);
-        let items = parse(&ls)?;
         let dir = dir_of(src).to_string();
+        let (items, parse_err) = parse_partial(&ls);
+        if let Some(e) = parse_err {
+            // the commands in front of the erroneous line have run by the time the error is met:
+            // one of them outside the vocabulary (D7) puts the project outside the judged domain
+            for it in &items {
+                if let Item::Dir(d) = it {
+                    if d.name == "run" {
+                        if let Err(ErrKind::Other(m)) = self.command(&d.args.join(" "), &dir, src) {
+                            return Err(ErrKind::Other(m));
+                        }
+                    }
+                }
+            }
+            return Err(e);
+        }
         let mut out = String::new();
         let mut owed = false;
         let mut tags = TagStore::default();
